@@ -34,6 +34,12 @@ Bad(e) ==
          IF Eq(Mul(e.f, e.g), e.n) /\ Lt(<<1>>, e.f) /\ Lt(<<1>>, e.g)
          THEN (IF e.out THEN {"is_prime-accepts-a-composite"} ELSE {})
          ELSE {"harness-witness-wrong"}
+    \* second supplement: (2/p) = 1 iff p = +-1 mod 8, so jacobi(q^2 2^t, p) = (2/p)^t for q coprime to p (harness: q small, odd)
+    [] e.op = "big-jacobi2" ->
+         LET low == e.p[Len(e.p)] % 8
+             two == IF low \in {1, 7} THEN 1 ELSE -1
+             want == IF e.t % 2 = 0 THEN 1 ELSE two
+         IN  IF e.ok /\ e.out = want THEN {} ELSE {"jacobi-of-2^t-q^2"}
     [] e.op = "big-prime" ->    \* catalogue prime: is_prime must say True
          IF e.out THEN {} ELSE {"is_prime-rejects-a-prime"}
 
